@@ -72,7 +72,7 @@ func c14Observed(kind, text string) string {
 
 func c14Sizes(tier string) (schemaUnits, jsonUnits, enumUnits, regexUnits, per, combos int) {
 	if tier == "thorough" {
-		return 1400, 500, 300, 100, 40, 36
+		return 8000, 3000, 1800, 600, 40, 36
 	}
 	return 448, 192, 128, 32, 24, 24
 }
@@ -306,7 +306,7 @@ func c14Style(r *mon.Rng) model.Style {
 	st := model.Style{
 		NL:            mon.Pick(r, []string{"\n", "\n", "\n", "\r\n", "\r\n", "\r"}),
 		Indent:        mon.Pick(r, []string{"", "", "-", "\t"}),
-		MultiLine:     mon.Pick(r, []int{0, 0, 0, 1, 2}),
+		MultiLine:     mon.Pick(r, []int{0, 0, 0, 1, 2, 3}),
 		QuoteNames:    r.Chance(1, 4),
 		TrailingComma: r.Chance(1, 4),
 		Comments:      r.Chance(1, 5),
@@ -324,6 +324,8 @@ func c14Schema(r *mon.Rng) (*model.Schema, string) {
 	note := func(n *model.Node) {
 		if r.Chance(1, 3) {
 			n.Note = mon.Pick(r, []string{"note", "some note text", "a - b", "see @x", "50% {sic}", "ends with slash /", "URL /a"})
+		} else if len(n.Rules) > 0 && r.Chance(1, 4) {
+			n.Dash = true // the note separator with an empty note
 		}
 	}
 	switch r.Intn(10) {
